@@ -15,13 +15,17 @@ namespace SkVerif.C14
 
 /-! ### RandomIntervalFeatureExtractor.transform -/
 
+/-- one output row: outer loop over the features, inner loop over the fitted intervals,
+`interval = X[i, 0, start:end]` -/
+def rifeRow {β} (fs : List (List Rat → β)) (ivs : List (Int × Int)) (row : List Rat) : List β :=
+  fs.flatMap (fun f => ivs.map (fun iv => f (pySlice row iv.1 iv.2)))
+
 /-- `transform` for feature functions `fs` and fitted `intervals_` rows `(start, end)`:
-column `a * n_intervals + b` of instance `i` is `fs[a]` of `X[i, 0, start_b:end_b]`
-(outer loop over features, inner loop over intervals). -/
+column `a * n_intervals + b` of instance `i` is `fs[a]` of `X[i, 0, start_b:end_b]`. -/
 def rifeWith {β} (fs : List (List Rat → β)) (ivs : List (Int × Int)) (X : Panel) :
     Except Err (List (List β)) := do
   let tbl ← univariateTable X
-  pure (tbl.map (fun row => fs.flatMap (fun f => ivs.map (fun (s, e) => f (pySlice row s e)))))
+  pure (tbl.map (rifeRow fs ivs))
 
 def mean? (xs : List Rat) : Option Rat := if xs.isEmpty then none else some (xs.sum / (xs.length : Rat))
 
